@@ -24,7 +24,7 @@ PATH2 = "ite(normalize_amp, uf('re_sub', 'Str', AMP_SUFFIXES_RE, '', %s), %s)" %
 SEG = "%s.rsplit('/', 1)" % PATH2
 FN = "uf('splitext', 'Tuple[Str,Str]', %s[len(%s) - 1])[0]" % (SEG, SEG)
 PATH3 = "ite(strip_index and (%s == 'index' or %s == 'default'), '/'.join(butlast(%s)), %s)" % (FN, FN, SEG, PATH2)
-DF = "next((f for d, f in PER_DOMAIN_QUERY_FILTERS if g_S.hostname.endswith(d)), None)"
+DF = "next((f for d, f in PER_DOMAIN_QUERY_FILTERS if ('.' + g_S.hostname).endswith('.' + d)), None)"
 FRAG1 = "uf('safely_unquote_fragment', 'Str', %s)" % P4
 FRAG2 = ("ite(%s != '' and truthy(strip_fragment) and (strip_fragment is True or not uf('should_strip_fragment', 'Bool', %s)), '', %s)"
          % (FRAG1, FRAG1, FRAG1))
